@@ -447,12 +447,12 @@ expires): a call returns the stored first result that its ONE lookup found live,
 runs the callback and returns that run's result.  (Until /repo dc4805d `Once` looked the entry up a second time before
 answering; when the entry expired between the two lookups it answered with the zero value — finding F39, exhibited on
 the real clock by kind `oncelive`.) -/
-theorem once_returns_stored_or_fresh (expTime now : Int) (c : Model.C17.Cell) (fresh : Int) :
-    (Model.C17.cellGet now c = some (Model.Funcs.onceCall expTime now c fresh).2.2 ∧
+theorem once_returns_stored_or_fresh (expTime now : Int) (c : Model.Funcs.Cell) (fresh : Int) :
+    (Model.Funcs.cellGet now c = some (Model.Funcs.onceCall expTime now c fresh).2.2 ∧
         (Model.Funcs.onceCall expTime now c fresh).2.1 = false) ∨
-    (Model.C17.cellGet now c = none ∧ (Model.Funcs.onceCall expTime now c fresh).2.2 = fresh ∧
+    (Model.Funcs.cellGet now c = none ∧ (Model.Funcs.onceCall expTime now c fresh).2.2 = fresh ∧
         (Model.Funcs.onceCall expTime now c fresh).2.1 = true) := by
   unfold Model.Funcs.onceCall
-  cases h : Model.C17.cellGet now c <;> simp
+  cases h : Model.Funcs.cellGet now c <;> simp
 
 end GoguVerif.Theorems.C18
